@@ -101,15 +101,17 @@ StatusOf(el) ==
 
 \* ---------------------------------------------------------------- frames, events
 Frame(fn, el) == [fn |-> fn, el |-> el, pc |-> "enter", i |-> 1, fc |-> 0, hc |-> FALSE, sr |-> FALSE, su |-> FALSE,
-                  rs |-> FALSE, failed |-> FALSE, drs |-> FALSE, hf |-> FALSE]
+                  rs |-> FALSE, failed |-> FALSE, drs |-> FALSE, hf |-> FALSE, att |-> 1]
 Top == stack[Len(stack)]
 SetTop(f) == [stack EXCEPT ![Len(stack)] = f]
 PushOn(stk, f) == Append(stk, f)
 Pop == SubSeq(stack, 1, Len(stack) - 1)
 
+\* attempt number of the innermost running scenario (scenario_autoretry runs a failing scenario again), 0 outside scenarios
+CurAtt == LET ss == SelectSeq(stack, LAMBDA f : f.fn = "scenario") IN IF ss = <<>> THEN 0 ELSE ss[Len(ss)].att
 Ev(k, name, el, tag, raised, pos, outcome, status, undef, cid, oreal, ereal) ==
    [k |-> k, name |-> name, el |-> el, tag |-> tag, raised |-> raised, pos |-> pos, outcome |-> outcome,
-    status |-> status, undefined |-> undef, cid |-> cid, out_real |-> oreal, err_real |-> ereal]
+    status |-> status, undefined |-> undef, cid |-> cid, out_real |-> oreal, err_real |-> ereal, att |-> CurAtt]
 HookEv(name, el, tag, raised, pos, instep) ==
    Ev("hook", name, el, tag, raised, pos, "", "", FALSE, 0, ~(instep /\ cfg.cap_out), ~(instep /\ cfg.cap_err))
 FmtEv(name, el, pos, status, undef) == Ev("fmt", name, el, "", FALSE, pos, "", status, undef, 0, TRUE, TRUE)
@@ -323,10 +325,11 @@ SEnter ==
           run == ~shouldSkip[el] /\ TagMatch(el) IN
       /\ hookFailed' = [hookFailed EXCEPT ![el] = FALSE]
       /\ forced' = [forced EXCEPT ![el] = "none"]
+      /\ evlog' = IF cfg.retry THEN Append(evlog, Ev("attempt", "", el, "", FALSE, 0, "", "", FALSE, 0, TRUE, TRUE)) ELSE evlog
       /\ ctx' = Append(ctx, [layer |-> "scenario", cls |-> <<>>])
       /\ stack' = SetTop([Top EXCEPT !.sr = run, !.rs = run /\ ~cfg.dry, !.drs = run /\ cfg.dry, !.su = rt.aborted, !.failed = FALSE,
                                      !.hc = (~cfg.dry /\ run), !.pc = IF ~cfg.dry /\ run THEN "btag" ELSE "announce", !.i = 1])
-   /\ U(<<inputs, ret, stepst, shouldSkip, rt, cap, evlog>>)
+   /\ U(<<inputs, ret, stepst, shouldSkip, rt, cap>>)
 SBeforeTag ==
    /\ Top.fn = "scenario" /\ Top.pc = "btag"
    /\ LET el == Top.el IN
@@ -354,14 +357,17 @@ SAnnounce ==    \* formatter.scenario, setup_capture (fresh buffers), formatter.
           e2 == IF show THEN [k \in 1..Len(Steps(el)) |-> FmtEv("step", el, k, "", FALSE)] ELSE <<>> IN
       /\ evlog' = evlog \o e1 \o e2
       /\ cap' = [cap EXCEPT !.buf = <<>>]
+      \* body not executed (hook error, aborted run): step results of an earlier attempt are forgotten
+      /\ stepst' = IF Top.su THEN [stepst EXCEPT ![el] = [j \in DOMAIN @ |-> IF @[j] \in {"untested", "skipped"} THEN @[j] ELSE "untested"]]
+                    ELSE stepst
       /\ stack' = SetTop([Top EXCEPT !.pc = IF Top.su THEN "finish" ELSE "steps", !.i = 1])
-   /\ U(<<inputs, ret, model, rt, ctx>>)
+   /\ U(<<inputs, ret, forced, hookFailed, shouldSkip, rt, ctx>>)
 SSteps ==       \* one step position per action
    /\ Top.fn = "scenario" /\ Top.pc = "steps"
    /\ LET el == Top.el  k == Top.i IN
       IF k > Len(Steps(el)) THEN /\ stack' = SetTop([Top EXCEPT !.pc = "finish"]) /\ U(<<stepst, rt, evlog>>)
       ELSE IF Top.rs THEN
-           /\ stack' = PushOn(SetTop([Top EXCEPT !.pc = "step_ret"]), [Frame("step", el) EXCEPT !.i = k])
+           /\ stack' = PushOn(SetTop([Top EXCEPT !.pc = "step_ret"]), [Frame("step", el) EXCEPT !.i = k, !.att = Top.att])
            /\ U(<<stepst, rt, evlog>>)
       ELSE IF Top.failed \/ Top.drs THEN
            LET d == Steps(el)[k].def IN
@@ -403,16 +409,18 @@ SAfterTag ==
            /\ hookFailed' = IF Raises THEN [hookFailed EXCEPT ![el] = TRUE] ELSE hookFailed
            /\ stack' = SetTop([Top EXCEPT !.i = Top.i + 1]) /\ U(forced)
    /\ U(<<inputs, ret, stepst, shouldSkip, ctx, cap>>)
-SPop ==
+SPop ==     \* context._pop() with cleanups; contrib.scenario_autoretry: a failed attempt is followed by another run()
    /\ Top.fn = "scenario" /\ Top.pc = "pop"
    /\ LET el == Top.el
           cls == CtxTop.cls
-          clf == AnyRaises(cls) IN
+          clf == AnyRaises(cls)
+          failed == Top.failed \/ clf IN
       /\ evlog' = evlog \o ClEvents(cls)
       /\ forced' = IF clf THEN [forced EXCEPT ![el] = "error"] ELSE forced
-      /\ ret' = (Top.failed \/ clf)
       /\ ctx' = CtxPop
-      /\ stack' = Pop
+      /\ IF cfg.retry /\ failed /\ Top.att < 2
+         THEN /\ stack' = SetTop([Frame("scenario", el) EXCEPT !.att = Top.att + 1]) /\ U(ret)
+         ELSE /\ ret' = failed /\ stack' = Pop
    /\ U(<<inputs, stepst, hookFailed, shouldSkip, rt, cap>>)
 
 \* ======================================================================= Step.run (frame.el = scenario, frame.i = position)
@@ -445,7 +453,7 @@ StBefore ==     \* start_capture; before_step hook
    /\ U(<<inputs, ret, model, ctx>>)
 StBody ==       \* match.run: converter error, or the body with its outcome
    /\ Top.fn = "step" /\ Top.pc = "body"
-   /\ LET el == Top.el  k == Top.i  s == Steps(el)[k]  o == s.o
+   /\ LET el == Top.el  k == Top.i  s == Steps(el)[k]  o == IF Top.att = 1 THEN s.o ELSE s.o2
           lookupFails == s.cl_id # 0 /\ s.cl_layer # "" /\ ~HasLayer(s.cl_layer) IN
       IF o = "badarg" THEN
           /\ stepst' = [stepst EXCEPT ![el][k] = "error"] /\ U(<<evlog, rt, shouldSkip, ctx, cap>>)
